@@ -25,7 +25,7 @@ tie: coq
 	  python3 translate/py2v.py $(REPO) $${u%%:*} > coq/generated/gen/$${u##*:}Gen.v || exit 1; done
 	cd coq && for u in LookupEnc LookupDec Hint Options Encode Flows Streams Decode GenericSink GenericParse GenericSerialize RdflibSerialize RdflibParse; do \
 	  coqc -Q tie PJ.Tie -Q generated/tie PJ.Tie -Q generated/gen PJ.Gen generated/gen/$${u}Gen.v || exit 1; done
-	cd coq && for t in LookupEncTie LookupDecTie HintTie OptionsTie EncodeTie EncodeStmtTie FlowsTie StreamsTie DecodeTie DecoderBase DecoderTie StmtLayout GenericTerms GenericParseTie RdflibParseTie GenericSerializeTie RdflibSerializeTie RdflibDriversTie GenericRoundTrip RdflibRoundTrip GenericGroupedTie GenericDriversTie GenericEntryTie GenericGenTie GenericEndToEnd RdflibEndToEnd SerializersAgree DecoderSource C05Source SourceProps StreamsSource TxRun TxRunRdflib TxRunRdflibParse; do \
+	cd coq && for t in LookupEncTie LookupDecTie HintTie OptionsTie EncodeTie EncodeStmtTie FlowsTie StreamsTie DecodeTie DecoderBase DecoderTie StmtLayout GenericTerms GenericParseTie RdflibParseTie GenericSerializeTie RdflibSerializeTie RdflibDriversTie RdflibEntryTie GenericRoundTrip RdflibRoundTrip GenericGroupedTie GenericDriversTie GenericEntryTie GenericGenTie GenericEndToEnd RdflibEndToEnd SerializersAgree DecoderSource C05Source SourceProps StreamsSource TxRun TxRunRdflib TxRunRdflibParse; do \
 	  coqc -Q model PJ.Model -Q proofs PJ.Proofs -Q tie PJ.Tie -Q generated/tie PJ.Tie -Q generated/gen PJ.Gen -o generated/tie/$$t.vo tie/$$t.v || exit 1; done
 
 clean:
